@@ -2,37 +2,39 @@
    the register-total helper of the client, AS TRANSLATED FROM THE GO SOURCE ON
    THIS RUN (Gen/SrcPure.v), compute the model's frames (about which C01.v
    proves that they are the Modbus encoding) for every transaction id, unit
-   id, function code and payload. Only statements, closed by [exact]. *)
+   id, function code and payload. Only statements, closed by [exact].
+   [call_with src_pure no_fns] runs a function of the translated program with no
+   external functions under it. *)
 From Coq Require Import List NArith String.
 Import ListNotations.
 From Modbus Require Import Base.Bytes Model.GoLite Gen.SrcPure Model.Wire Model.Client.
-From Modbus Require Import Proofs.SrcMiscP.
+From Modbus Require Import Proofs.GoLiteLinkP Proofs.SrcMiscP.
 Open Scope string_scope.
 Open Scope N_scope.
 
 (* rtuTransport.assembleRTUFrame: unit, function code, payload, CRC (low byte first) *)
 Theorem c01s_assemble_rtu : forall fuel unit fc payload,
   bytesb (unit :: fc :: payload) = true ->
-  call src_pure fuel "rtuTransport.assembleRTUFrame" [VN unit; VN fc; vbytes payload] =
+  call_with src_pure no_fns fuel "rtuTransport.assembleRTUFrame" [VN unit; VN fc; vbytes payload] =
   GoLite.Ok [vbytes (assemble_rtu (mkpdu unit fc payload))].
-Proof. exact src_assembleRTUFrame_ok. Qed.
+Proof. exact (src_assembleRTUFrame_ok no_fns). Qed.
 Print Assumptions c01s_assemble_rtu.
 
 (* tcpTransport.assembleMBAPFrame: transaction id, protocol id 0, length, unit, function code, payload *)
 Theorem c01s_assemble_mbap : forall fuel txn unit fc payload,
   N.of_nat (List.length payload) < 2 ^ 62 ->
-  call src_pure fuel "tcpTransport.assembleMBAPFrame" [VN txn; VN unit; VN fc; vbytes payload] =
+  call_with src_pure no_fns fuel "tcpTransport.assembleMBAPFrame" [VN txn; VN unit; VN fc; vbytes payload] =
   GoLite.Ok [vbytes (assemble_mbap txn (mkpdu unit fc payload))].
-Proof. exact src_assembleMBAPFrame_ok. Qed.
+Proof. exact (src_assembleMBAPFrame_ok no_fns). Qed.
 Print Assumptions c01s_assemble_mbap.
 
 (* registerCount: the register total of a multi-register read saturates instead of wrapping *)
 Theorem c01s_register_count : forall fuel q w, q < 65536 -> w < 65536 ->
-  call src_pure fuel "registerCount" [VN q; VN w] = GoLite.Ok [VN (register_count q w)].
-Proof. exact src_registerCount_ok. Qed.
+  call_with src_pure no_fns fuel "registerCount" [VN q; VN w] = GoLite.Ok [VN (register_count q w)].
+Proof. exact (src_registerCount_ok no_fns). Qed.
 Print Assumptions c01s_register_count.
 
 Example c01s_check_mbap :
-  call src_pure 0 "tcpTransport.assembleMBAPFrame" [VN 0x1234; VN 17; VN 3; vbytes [0; 5; 0; 2]] =
+  call_with src_pure no_fns 0 "tcpTransport.assembleMBAPFrame" [VN 0x1234; VN 17; VN 3; vbytes [0; 5; 0; 2]] =
   GoLite.Ok [vbytes [0x12; 0x34; 0; 0; 0; 6; 17; 3; 0; 5; 0; 2]].
 Proof. vm_compute. reflexivity. Qed.
